@@ -820,7 +820,7 @@ var (
 
 func genBasicAuth(r *hx.Rand) basicAuthIn {
 	u, p := r.Pick(baUsers), r.Pick(baPasses)
-	if r.Chance(1, 5) {
+	if r.Chance(1, 2) {
 		u = strings.ReplaceAll(string(r.Bytes(r.Intn(7))), ":", "")
 		p = string(r.Bytes(r.Intn(7)))
 	}
